@@ -4,7 +4,7 @@ CONSTANT MkCase <- FindCase
 CONSTANT MaxLen = 64
 CONSTANT MaxL = 32
 CONSTANT MaxTags = 3
-CONSTANT FindLens = {0, 3, 4, 8, 12, 16, 24, 64, 8184, 8188, 8192, 8196, 8200, 8204, 16384}
+CONSTANT FindLens = {0, 3, 4, 8, 12, 16, 24, 64, 8184, 8188, 8192, 8196, 8200, 8204, 16384, 32768, 32776, 65536}
 CONSTANT FindPos = {0, 1, 4, 8, 16, 8176, 8180, 8184, 8188, 8189, 8192, 8200}
 INVARIANT DesignAccepted
 INVARIANT DesignControlled
